@@ -1,6 +1,7 @@
 mod eval;
 mod mir;
 mod model;
+mod nomchars;
 mod nomx;
 mod quotex;
 mod report;
